@@ -9,6 +9,7 @@ package main
 // whatever the other settings are.
 
 import (
+	"go/types"
 	"fmt"
 	"go/ast"
 	"go/token"
@@ -48,6 +49,15 @@ func configInvalidClasses(c *Ctx) {
 		case *ast.IncDecStmt:
 			if id, ok := v.X.(*ast.Ident); ok && v.Tok == token.INC {
 				pc = id.Name
+			}
+		case *ast.BinaryExpr:
+			// the local compared with 1 (`count > 1`): the proxy counter, also when a helper counts
+			if k, isC := constInt(fi.Pkg.TypesInfo, v.Y); isC && k == 1 && v.Op == token.GTR {
+				if id, ok := ast.Unparen(v.X).(*ast.Ident); ok {
+					if o, isVar := identObj(fi.Pkg.TypesInfo, id).(*types.Var); isVar && o.Parent() != o.Pkg().Scope() {
+						pc = id.Name
+					}
+				}
 			}
 		}
 		return true
@@ -146,14 +156,43 @@ func configInvalidClasses(c *Ctx) {
 	total := 0
 	for _, cl := range classes {
 		cl := cl
-		relevant := func(e ast.Expr) bool {
+		var relevant func(e ast.Expr) bool
+		helperRelevant := map[string]bool{}
+		relevant = func(e ast.Expr) bool {
 			str := exprStr(e) + " "
 			for _, m := range cl.mention {
 				if strings.Contains(str, m) {
 					return true
 				}
 			}
-			return false
+			// a condition on the result of a helper that tests this class's fields
+			hit := false
+			ast.Inspect(e, func(n ast.Node) bool {
+				call, ok := n.(*ast.CallExpr)
+				if !ok || hit {
+					return !hit
+				}
+				h := c.P.Func(calleeKey(fi.Pkg.TypesInfo, call))
+				if h == nil || h.Pkg != fi.Pkg || ast.IsExported(h.Decl.Name.Name) || h.Decl.Body == nil {
+					return true
+				}
+				v, seen := helperRelevant[h.Key]
+				if !seen {
+					helperRelevant[h.Key] = false
+					ast.Inspect(h.Decl.Body, func(m ast.Node) bool {
+						if be, ok := m.(*ast.BinaryExpr); ok && relevant(be) {
+							v = true
+						}
+						return !v
+					})
+					helperRelevant[h.Key] = v
+				}
+				if v {
+					hit = true
+				}
+				return true
+			})
+			return hit
 		}
 		var base *Base
 		nsucc, bad := 0, 0
@@ -208,6 +247,24 @@ func configInvalidClasses(c *Ctx) {
 				}
 			},
 		})
+		// helpers split off validateConfig are interpreted in place when they test this class's fields
+		base.AutoInline = func(h *FuncInfo) bool {
+			if h.Pkg != fi.Pkg || ast.IsExported(h.Decl.Name.Name) || h.Decl.Body == nil {
+				return false
+			}
+			hit := false
+			ast.Inspect(h.Decl.Body, func(n ast.Node) bool {
+				if e, ok := n.(ast.Expr); ok && !hit {
+					if _, isCall := e.(*ast.CallExpr); !isCall && relevant(e) {
+						if be, isBin := e.(*ast.BinaryExpr); isBin || be != nil {
+							hit = true
+						}
+					}
+				}
+				return !hit
+			})
+			return hit
+		}
 		x := NewExec(c.P.FlowOf(fi), base)
 		x.Run(newSt())
 		total += x.stats.States
